@@ -36,6 +36,9 @@ def configs(tier, seed):
                             continue  # slicing away the dimension a flow is split by is a contradictory setting (flodym raises)
                         key = f"sankey/" + "+".join(f"{a}>{b}:{d}" for (a, b), d in zip(fs, fdims)) + f"/slice={''.join(f'{k}{v}' for k, v in sl.items()) or '-'}/excl={','.join(excl) or '-'}/exf={int(exf)}/split={split}"
                         out.append(dict(h="sankey", op="sankey", key=key, procs=procs, flows=[list(p) for p in fs], fdims=fdims, stocks=[], slice=sl, excl=excl, exf=exf, split=split))
+                        if (excl or exf) and (i + si) % 3 == 0:
+                            for how in ("before_plot", "after_plot"):
+                                out.append(dict(h="sankey", op="sankey_reconf", key=key + f"/settings_assigned={how}", procs=procs, flows=[list(p) for p in fs], fdims=fdims, stocks=[], slice=sl, excl=excl, exf=exf, split=split, reconfigured=how))
     # slices that select an item which is falsy in Python (period 0, an empty label)
     for i, fs in enumerate(fsets[::3]):
         fdims = [["ta", "tab", "b", "at", "t"][(i + 2 * j) % 5] for j in range(len(fs))]
@@ -65,6 +68,9 @@ def configs(tier, seed):
                             if chart != "line" and (xa != "none" or style != "names"):
                                 continue
                             out.append(dict(h="array", op=backend, key=f"array/{backend}/{shape}/roles={''.join(roles)}/{style}/x={xa}/{chart}", shape=shape, roles=list(roles), style=style, xa=xa, backend=backend, chart=chart))
+                            if chart == "line" and style == "names" and len(letters) >= 2 and xa in ("none", "same"):
+                                # display names that show two items of the line dimension (and two subplot items) under one text
+                                out.append(dict(h="array", op=backend + "dn", key=f"array/{backend}/{shape}/roles={''.join(roles)}/{style}/x={xa}/{chart}/same_display_names", shape=shape, roles=list(roles), style=style, xa=xa, backend=backend, chart=chart, display="collide"))
     return out
 
 
@@ -90,7 +96,17 @@ def _sankey(cfg, w):
             colors[n0] = (NAMES[d0[-1]] if len(d0) % 2 else d0[-1], ["red", "green", "blue"])
     sl = cfg["slice"]
     try:
-        fig = PlotlySankeyPlotter(mfa=mfa, slice_dict=dict(sl), exclude_processes=list(cfg["excl"]), exclude_flows=exflows, flow_color_dict=colors).plot()
+        if cfg.get("reconfigured"):
+            # one plotter object used for a second view of the system: built (and plotted) with other settings first
+            pl = PlotlySankeyPlotter(mfa=mfa, slice_dict={}, exclude_processes=[], exclude_flows=[], flow_color_dict=colors)
+            if cfg["reconfigured"] == "after_plot":
+                pl.plot()
+            pl.exclude_processes = list(cfg["excl"])
+            pl.exclude_flows = exflows
+            pl.slice_dict = dict(sl)
+            fig = pl.plot()
+        else:
+            fig = PlotlySankeyPlotter(mfa=mfa, slice_dict=dict(sl), exclude_processes=list(cfg["excl"]), exclude_flows=exflows, flow_color_dict=colors).plot()
     except Exception as e:
         w.ob("plot_does_not_raise", False, info=f"{type(e).__name__}: {str(e)[:200]}")
         return
@@ -167,6 +183,15 @@ def _array(cfg, w):
         Xv = w.arr("x", xds.shape)
         xa = FlodymArray(dims=xds, values=Xv.copy(), name="xq")
     kw = dict(array=arr, intra_line_dim=nm(xdim), linecolor_dim=nm(ldim), subplot_dim=nm(sdim), x_array=xa, chart_type=cfg["chart"])
+    shown = lambda item: item
+    if cfg.get("display") == "collide":
+        dn = {}
+        for d_ in (ldim, sdim):
+            if d_:
+                for it in D[d_].items[:2]:
+                    dn[it] = f"group of {d_}"
+        kw["display_names"] = dn
+        shown = lambda item: dn.get(item, item)
     traces = []
     if cfg["backend"] == "plotly":
         from flodym.export.array_plotter import PlotlyArrayPlotter
@@ -214,7 +239,7 @@ def _array(cfg, w):
                 axes_seen.append(axis)
             w.ob(f"subplot{si}_line{li}:same_axes_within_subplot", axis == axes_seen[si])
             if ldim:
-                w.ob(f"subplot{si}_line{li}:label", str(label) == str(D[ldim].items[li]), info=f"{label}")
+                w.ob(f"subplot{si}_line{li}:label", str(label) == str(shown(D[ldim].items[li])), info=f"{label}")
             w.ob(f"subplot{si}_line{li}:length", len(x) == lens[xdim] and len(y) == lens[xdim])
             if len(y) != lens[xdim] or len(x) != lens[xdim]:
                 continue
